@@ -1,6 +1,7 @@
 package props
 
 import (
+	oracletypes "github.com/bandprotocol/chain/v3/x/oracle/types"
 	"testing"
 	"time"
 
@@ -21,4 +22,44 @@ func TestSimSmoke(t *testing.T) {
 		}
 	}
 	t.Logf("height %d hash %x in %v", c.Height, c.AppHash, time.Since(t0))
+}
+
+// TestSimReimport: a genesis export/import round trip in the middle of a history keeps the chain usable.
+func TestSimReimport(t *testing.T) {
+	c, err := sim.New(sim.Config{NumAccounts: 3, Validators: []sim.ValSpec{{Tokens: 100_000_000}, {Tokens: 50_000_000}},
+		Scripts: [][]byte{sim.ScriptAsk([]int{1, 1}, "ok")}, DataSources: []sim.DSSpec{{Exec: []byte("hello"), Treasury: 1}}}, 0)
+	if err != nil {
+		t.Fatal(err)
+	}
+	defer c.Close()
+	act := func() {
+		var txs [][]byte
+		for _, v := range c.Vals {
+			txs = append(txs, c.SignTx(v, oracletypes.NewMsgActivate(v.Val)))
+		}
+		res, err := c.Block(txs, time.Second)
+		if err != nil {
+			t.Fatal(err)
+		}
+		for i, tr := range res.Resp.TxResults {
+			t.Logf("height %d tx %d code %d %s", res.Height, i, tr.Code, tr.Log)
+		}
+	}
+	act()
+	h := c.Height
+	res, err := c.Reimport(time.Second)
+	if err != nil {
+		t.Fatal(err)
+	}
+	if res.Height != h+1 {
+		t.Fatalf("height after reimport %d, want %d", res.Height, h+1)
+	}
+	// note: x/oracle exports only params, data sources and oracle scripts - validator statuses, requests and reports
+	// do not survive the round trip (by design of its ExportGenesis), so every validator has to activate again
+	act() // sequence numbers are still right after the round trip
+	for i := 0; i < 5; i++ {
+		if _, err := c.Block(nil, time.Second); err != nil {
+			t.Fatal(err)
+		}
+	}
 }
